@@ -29,6 +29,7 @@ const (
 	oAnswer = iota
 	oNone
 	oError
+	oErrorWithResp // returns an error although it left a response in the query context: a failure
 )
 
 var c20Durs = []time.Duration{0, 200 * time.Millisecond, 800 * time.Millisecond, -1} // -1: until its context ends
@@ -67,6 +68,13 @@ func (s *c20exec) Exec(ctx context.Context, qCtx *query_context.Context) error {
 		return errScript
 	case oNone:
 		return nil
+	}
+	if s.outcome == oErrorWithResp {
+		r := new(dns.Msg)
+		r.SetReply(qCtx.Q())
+		r.Answer = append(r.Answer, &dns.A{Hdr: dns.RR_Header{Name: "example.", Rrtype: dns.TypeA, Class: dns.ClassINET, Ttl: 60}, A: net.IPv4(9, 9, 9, 9)})
+		qCtx.SetResponse(r)
+		return errScript
 	}
 	r := new(dns.Msg)
 	r.SetReply(qCtx.Q())
@@ -134,13 +142,13 @@ func c20Call(s *c20sys) {
 func c20Choose(s *c20sys) {
 	s.pd, s.po = vs.Choose(len(c20Durs)), 0
 	if c20Durs[s.pd] >= 0 {
-		s.po = vs.Choose(3)
+		s.po = vs.Choose(4)
 	} else {
 		s.po = oError
 	}
 	s.sd = vs.Choose(len(c20Durs))
 	if c20Durs[s.sd] >= 0 {
-		s.so = vs.Choose(3)
+		s.so = vs.Choose(4)
 	} else {
 		s.so = oError
 	}
